@@ -111,6 +111,7 @@ class Policy(object):
         self.resume = True
         self.lazy_start = 0  # >0: up to that many times an offered task is started only after a further event (relaxes A2)
         self.lazy_after_rerun = False
+        self.early_resume = False  # a resume request may come at any boundary after the pause request
         self.rerun_probe = False  # one rerun request at a symbolic boundary while the workflow is not completed
         self.intermediate = False  # in-flight actions may report canceling/pausing before their final status
         self.rerun = None  # None | "default" | "explicit": one rerun request once the workflow has completed
@@ -478,6 +479,11 @@ class Env(object):
                 elif kind == "cancel" and st in (S.RUNNING, S.PAUSING, S.PAUSED, S.RESUMING):
                     self.request(S.CANCELED if p.cancel_as_canceled else S.CANCELING)
                     self.offers()
+        if p.early_resume and self.pause_req and not self.cancel_req and self.status() in (S.PAUSING, S.PAUSED):
+            # the user may resume before the workflow has come to rest
+            if self.ch.lazy("resume_at").is_(b):
+                self.request(S.RESUMING)
+                self.offers()
         if p.control == "both":
             # a pause and a cancel at independent positions (cancel from running, pausing, paused, resuming)
             if not self.ever_pause_req and not self.cancel_req and self.status() in (S.RUNNING, S.RESUMING):
